@@ -163,7 +163,25 @@ def check_templates(ctx, f):
     res = src(par.targets[0]) if isinstance(par, ast.Assign) and len(par.targets) == 1 else None
     ok = "ratestring=str(ratestring).replace('**','^')" in txt and pcall.args and src(pcall.args[0]) == 'ratestring' and res is not None and \
         any(t.endswith('ratelaw.setMath(%s)' % res) for t in txt)
-    ctx.ob('R14.2-value', 'parse-and-set', ok, where, 'the built string is what is parsed and set as the kinetic law', '')
+    # after the per-type templates the string is only re-spelled ('**' -> '^'): no other rewriting of the finished text (a textual
+    # replace cannot tell an identifier from a part of one)
+    extra = []
+    pstmt = pcall
+    while not isinstance(pstmt, ast.stmt):
+        pstmt = pstmt._parent
+    if pstmt in f.body:
+        disp_end = max([i for i, st in enumerate(f.body) if isinstance(st, ast.If) and 'propensity_type' in src(st.test)
+                        and any(isinstance(n, (ast.Assign, ast.AugAssign)) and src((n.targets[0] if isinstance(n, ast.Assign) else n.target)) == 'ratestring'
+                                for n in ast.walk(st))] or [-1])
+        for st in f.body[disp_end + 1:f.body.index(pstmt)]:
+            for n in ast.walk(st):
+                if isinstance(n, (ast.Assign, ast.AugAssign)) and src((n.targets[0] if isinstance(n, ast.Assign) else n.target)) == 'ratestring':
+                    if util.stmt_key(n).replace(' ', '') != "ratestring=str(ratestring).replace('**','^')":
+                        extra.append(util.stmt_key(n)[:80])
+    else:
+        extra.append('the parse call is not at the top level of add_reaction')
+    ok = ok and not extra
+    ctx.ob('R14.2-value', 'parse-and-set', ok, where, 'the built string is what is parsed and set as the kinetic law', '; '.join(extra))
 
 
 # ---- the expression language on both sides of the writer's parser ------------------------------------------------------------
@@ -240,6 +258,39 @@ def check_formula_language(ctx, rule, fname, site, mode):
         ctx.ob(rule, '%s/%s' % (site, name), ok, where,
                ("the writer's parser gives '%s' the meaning bioscrape gives it" % name) if mode == 'sbml' else
                ("'%s' written to SBML and read back keeps bioscrape's meaning" % name), detail, fp=theirs)
+
+
+def check_parameter_ids(ctx, rule):
+    """the id a parameter gets in the document is the name the laws and annotations use for it: no renaming on the way"""
+    f = get_func(ctx, 'add_parameter')
+    pn = f.args.args[1].arg
+    problems = []
+    rebinds = [n for n in ast.walk(f) if isinstance(n, (ast.Assign, ast.AugAssign)) and
+               any(src(t) == pn for t in (n.targets if isinstance(n, ast.Assign) else [n.target]))]
+    for n in rebinds:
+        problems.append('add_parameter rewrites the name: `%s`' % util.stmt_key(n)[:70])
+    ids = [c for c in ast.walk(f) if isinstance(c, ast.Call) and isinstance(c.func, ast.Attribute) and c.func.attr == 'setId']
+    if len(ids) != 1 or src(ids[0].args[0]) != pn:
+        problems.append('the id is set to %s' % [src(c.args[0]) for c in ids])
+    g = ctx.fn('types:Model.generate_sbml_model')
+    calls = util.calls_in(g, suffix='add_parameter')
+    if len(calls) != 1:
+        problems.append('%d add_parameter calls in generate_sbml_model' % len(calls))
+    else:
+        kw = {k.arg: k.value for k in calls[0].keywords}
+        name = kw.get('param_name', calls[0].args[1] if len(calls[0].args) > 1 else None)
+        loop = calls[0]
+        while loop is not None and not isinstance(loop, ast.For):
+            loop = getattr(loop, '_parent', None)
+        if name is None or loop is None or src(name) != src(loop.target):
+            problems.append('the exported name is %s, not the loop variable over the model parameters' % (src(name) if name is not None else None))
+        else:
+            for n in ast.walk(loop):
+                if isinstance(n, (ast.Assign, ast.AugAssign)) and any(src(t) == src(loop.target) for t in (n.targets if isinstance(n, ast.Assign) else [n.target])):
+                    problems.append('generate_sbml_model rewrites the name before exporting it: `%s`' % util.stmt_key(n)[:70])
+    ctx.ob(rule, 'parameter-ids', not problems, ctx.loc('sbmlutil', f),
+           "a parameter is exported under its own name: the id in the document is the spelling the kinetic laws and annotations use",
+           '; '.join(problems))
 
 
 def check_stoichiometry(ctx, f):
@@ -343,6 +394,9 @@ def check(ctx):
     check_templates(ctx, f)
     check_stoichiometry(ctx, f)
     check_modifiers(ctx, f)
+    for m_ in ('types', 'types.pxd'):
+        ctx.prog.mod(m_)
+    check_parameter_ids(ctx, 'R14.1-identifiers')
     check_formula_language(ctx, 'R14.6-formula-language', 'add_reaction', 'kinetic-law', 'sbml')
     ctx.floor('R14.6-formula-language', 7)
     # "the deterministic rate in a deterministic export and the combinatorial stochastic rate in a stochastic export": the templates
